@@ -1307,7 +1307,7 @@ fn run_ep(kind: &str, name: &str, inp: &[u8], scratch: &str) -> Out {
     }
 }
 
-// ====================================================================== worker
+// ====================================================================== worker (forked child)
 
 struct Seed {
     kind: String,
@@ -1323,57 +1323,43 @@ fn load_seeds(path: &str) -> std::collections::HashMap<String, Seed> {
 
 extern "C" {
     fn setrlimit(resource: i32, rlim: *const [u64; 2]) -> i32;
+    fn fork() -> i32;
+    fn waitpid(pid: i32, status: *mut i32, options: i32) -> i32;
+    fn kill(pid: i32, sig: i32) -> i32;
+    fn _exit(code: i32) -> !;
+    fn dup2(old: i32, new: i32) -> i32;
 }
 
 fn limit_memory(bytes: u64) {
-    // RLIMIT_AS = 9 on Linux
+    // RLIMIT_AS = 9 on Linux: an allocation beyond it fails, Rust then aborts the process
     let lim = [bytes, bytes];
     let rc = unsafe { setrlimit(9, &lim) };
     assert!(rc == 0, "setrlimit failed");
 }
 
-/// skip list: "<case id> <ep index> <outcome> <msg>" lines written by the parent
-fn load_skips(path: &str) -> std::collections::HashMap<(u64, usize), (String, String)> {
-    let mut m = std::collections::HashMap::new();
-    if let Ok(s) = std::fs::read_to_string(path) {
-        for l in s.lines() {
-            let p: Vec<&str> = l.splitn(4, ' ').collect();
-            if p.len() >= 3 {
-                m.insert((p[0].parse().unwrap(), p[1].parse().unwrap()), (p[2].to_string(), p.get(3).unwrap_or(&"").to_string()));
-            }
-        }
-    }
-    m
+type Skips = std::collections::HashMap<(u64, usize), (String, String)>;
+
+struct Shared {
+    seeds: std::collections::HashMap<String, Seed>,
+    cases: Vec<String>,
+    vseed: u64,
+    scratch: String,
+    progress: String,
+    part: String,
 }
 
-fn worker(a: &std::collections::HashMap<String, String>) {
+/// executes cases[from-1..]; runs in the forked child
+fn worker(sh: &Shared, from: u64, skips: &Skips) {
     use std::os::unix::fs::FileExt;
-    limit_memory(a.get("mem").and_then(|s| s.parse().ok()).unwrap_or(2u64 << 30));
     install_hook();
-    let seeds = load_seeds(&a["seeds"]);
-    let from: u64 = a["from"].parse().unwrap();
-    let skips = load_skips(&a["skip"]);
-    let vseed = seed_from_env();
-    let scratch = a["scratch"].clone();
-    let marker = std::fs::OpenOptions::new().create(true).write(true).truncate(false).open(&a["progress"]).expect("progress file");
-    let out = std::fs::OpenOptions::new().create(true).append(true).open(&a["out"]).expect("out file");
+    let marker = std::fs::OpenOptions::new().create(true).write(true).truncate(false).open(&sh.progress).expect("progress file");
+    let out = std::fs::OpenOptions::new().create(true).append(true).open(&sh.part).expect("out file");
     let mut out = std::io::BufWriter::new(out);
-    let f = std::fs::File::open(&a["cases"]).expect("cases");
     let mut names_cache: std::collections::HashMap<String, Vec<String>> = Default::default();
-    use std::io::BufRead;
-    let mut id = 0u64;
-    for line in BufReader::new(f).lines() {
-        let line = line.expect("line");
-        if line.trim().is_empty() {
-            continue;
-        }
-        id += 1;
-        if id < from {
-            continue;
-        }
-        let case: Value = serde_json::from_str(&line).expect("case json");
-        let seed = &seeds[j_str(&case["seed"])];
-        let input = materialise(&seed.bytes, j_arr(&case["edits"]), id, vseed);
+    for id in from..=sh.cases.len() as u64 {
+        let case: Value = serde_json::from_str(&sh.cases[(id - 1) as usize]).expect("case json");
+        let seed = &sh.seeds[j_str(&case["seed"])];
+        let input = materialise(&seed.bytes, j_arr(&case["edits"]), id, sh.vseed);
         let mut transport_ok = true;
         if let Some(exp) = case.get("bytes") {
             // TLC materialised the bytes itself: the driver's splice must agree (transport check)
@@ -1394,7 +1380,7 @@ fn worker(a: &std::collections::HashMap<String, String>) {
             m[..8].copy_from_slice(&id.to_le_bytes());
             m[8..].copy_from_slice(&(k as u64).to_le_bytes());
             marker.write_at(&m, 0).expect("marker");
-            match run_ep(&seed.kind, name, &input, &scratch) {
+            match run_ep(&seed.kind, name, &input, &sh.scratch) {
                 Ok(true) => outs.push("ok"),
                 Ok(false) => outs.push("err"),
                 Err(msg) => {
@@ -1409,15 +1395,14 @@ fn worker(a: &std::collections::HashMap<String, String>) {
         out.write_all(b"\n").unwrap();
         out.flush().unwrap();
     }
-    // end marker
     let mut m = [0xFFu8; 16];
     m[..8].copy_from_slice(&u64::MAX.to_le_bytes());
     marker.write_at(&m, 0).expect("marker");
 }
 
-// ====================================================================== parent
+// ====================================================================== parent (fork server)
 
-fn cpu_ticks(pid: u32) -> u64 {
+fn cpu_ticks(pid: i32) -> u64 {
     // utime + stime of the whole process (all threads), clock ticks
     let s = std::fs::read_to_string(format!("/proc/{pid}/stat")).unwrap_or_default();
     let rest = s.rsplit_once(')').map(|x| x.1).unwrap_or("");
@@ -1438,57 +1423,75 @@ fn read_marker(path: &str) -> Option<(u64, u64)> {
 }
 
 fn parent(a: &std::collections::HashMap<String, String>) {
+    // the children must not reserve one malloc arena per thread (RLIMIT_AS counts address space)
+    if std::env::var("MALLOC_ARENA_MAX").is_err() {
+        let st = std::process::Command::new(std::env::current_exe().expect("exe"))
+            .args(std::env::args().skip(1))
+            .env("MALLOC_ARENA_MAX", "1")
+            .env("RAYON_NUM_THREADS", "1")
+            .status()
+            .expect("re-exec");
+        std::process::exit(st.code().unwrap_or(3));
+    }
     let work = a["work"].clone();
-    let seeds_path = a["seeds"].clone();
-    let cases_path = a["cases"].clone();
-    let part = format!("{work}/worker_out.ndjson");
-    let progress = format!("{work}/progress.bin");
-    let skip = format!("{work}/skip.txt");
-    let scratch = format!("{work}/scratch.dcm");
     let errlog = format!("{work}/worker_stderr.txt");
-    let _ = std::fs::remove_file(&part);
-    let _ = std::fs::remove_file(&skip);
-    std::fs::write(&skip, "").unwrap();
-    let ncases = {
-        use std::io::BufRead;
-        BufReader::new(std::fs::File::open(&cases_path).expect("cases")).lines().filter(|l| l.as_ref().map(|s| !s.trim().is_empty()).unwrap_or(false)).count() as u64
+    let sh = Shared {
+        seeds: load_seeds(&a["seeds"]),
+        cases: std::fs::read_to_string(&a["cases"]).expect("cases").lines().filter(|l| !l.trim().is_empty()).map(|l| l.to_string()).collect(),
+        vseed: seed_from_env(),
+        scratch: format!("{work}/scratch.dcm"),
+        progress: format!("{work}/progress.bin"),
+        part: format!("{work}/worker_out.ndjson"),
     };
-    // budget per (case, entry point): CPU seconds of the worker without progress; wall as a backstop
+    let _ = std::fs::remove_file(&sh.part);
+    let ncases = sh.cases.len() as u64;
+    let mem: u64 = a.get("mem-mib").and_then(|s| s.parse().ok()).unwrap_or(512u64) << 20;
+    // budget per (case, entry point): CPU seconds of the worker without progress; wall clock as a backstop
     let hang_cpu_s: f64 = a.get("hang-cpu").and_then(|s| s.parse().ok()).unwrap_or(10.0);
     let hang_wall_s: f64 = a.get("hang-wall").and_then(|s| s.parse().ok()).unwrap_or(300.0);
-    let exe = std::env::current_exe().expect("exe");
+    let max_incidents: usize = a.get("max-incidents").and_then(|s| s.parse().ok()).unwrap_or(20000);
+    let mut skips: Skips = Default::default();
     let mut from = 1u64;
-    let mut restarts = 0usize;
     let mut incidents: Vec<Value> = Vec::new();
+    let mut n_incidents = 0usize;
     let mut cpu_total = 0u64;
-    loop {
-        std::fs::write(&progress, [0u8; 16]).unwrap();
+    while from <= ncases {
+        std::fs::write(&sh.progress, [0u8; 16]).unwrap();
         let errf = std::fs::File::create(&errlog).unwrap();
-        let mut child = std::process::Command::new(&exe)
-            .args(["--worker", "--seeds", &seeds_path, "--cases", &cases_path, "--from", &from.to_string(), "--skip", &skip, "--out", &part,
-                   "--progress", &progress, "--scratch", &scratch])
-            .args(a.get("mem").map(|m| vec!["--mem".to_string(), m.clone()]).unwrap_or_default())
-            .stdout(std::process::Stdio::null())
-            .stderr(errf)
-            .spawn()
-            .expect("spawn worker");
-        let pid = child.id();
-        let mut last = (0u64, 0u64);
-        let mut cpu_at = cpu_ticks(pid);
-        let mut wall_at = std::time::Instant::now();
-        let mut last_cpu = cpu_at;
-        let status;
-        let mut hung = false;
-        loop {
-            match child.try_wait().expect("wait") {
-                Some(st) => {
-                    status = Some(st);
-                    break;
+        use std::os::fd::AsRawFd;
+        let pid = unsafe { fork() };
+        assert!(pid >= 0, "fork failed");
+        if pid == 0 {
+            // child: memory limit, stderr to the log, the main thread's default stack size
+            unsafe { dup2(errf.as_raw_fd(), 2) };
+            limit_memory(mem);
+            let code = std::thread::scope(|s| {
+                let h = std::thread::Builder::new().stack_size(8 << 20).spawn_scoped(s, || worker(&sh, from, &skips)).expect("thread");
+                if h.join().is_err() {
+                    4
+                } else {
+                    0
                 }
-                None => {}
+            });
+            unsafe { _exit(code) };
+        }
+        drop(errf);
+        let mut last = (0u64, 0u64);
+        let mut cpu_at = 0u64;
+        let mut wall_at = std::time::Instant::now();
+        let mut last_cpu = 0u64;
+        let mut hung = false;
+        let mut status = 0i32;
+        let mut sleep_us = 200u64;
+        loop {
+            let r = unsafe { waitpid(pid, &mut status, 1) };
+            if r == pid {
+                break;
             }
-            std::thread::sleep(std::time::Duration::from_millis(40));
-            let cur = read_marker(&progress).unwrap_or((0, 0));
+            assert!(r == 0, "waitpid failed");
+            std::thread::sleep(std::time::Duration::from_micros(sleep_us));
+            sleep_us = (sleep_us * 2).min(20_000);
+            let cur = read_marker(&sh.progress).unwrap_or((0, 0));
             let cpu = cpu_ticks(pid);
             if cpu > 0 {
                 last_cpu = cpu;
@@ -1500,50 +1503,46 @@ fn parent(a: &std::collections::HashMap<String, String>) {
             } else if cur.0 != 0 && cur.0 != u64::MAX {
                 let burnt = cpu.saturating_sub(cpu_at) as f64 / 100.0;
                 if burnt > hang_cpu_s || wall_at.elapsed().as_secs_f64() > hang_wall_s {
-                    let _ = child.kill();
-                    let _ = child.wait();
+                    unsafe { kill(pid, 9) };
+                    unsafe { waitpid(pid, &mut status, 0) };
                     hung = true;
-                    status = None;
                     break;
                 }
             }
         }
         cpu_total += last_cpu;
-        let done = status.map(|s| s.success()).unwrap_or(false) && read_marker(&progress).map(|m| m.0 == u64::MAX).unwrap_or(false);
-        if done {
+        let exited_ok = !hung && (status & 0x7f) == 0 && ((status >> 8) & 0xff) == 0;
+        let (cid, ep) = read_marker(&sh.progress).unwrap_or((0, 0));
+        if exited_ok && cid == u64::MAX {
             break;
         }
-        // the worker died or was killed while executing (case, ep) of the marker
-        let (cid, ep) = read_marker(&progress).unwrap_or((0, 0));
+        // the child died or was killed while executing (case, ep) of the marker
+        let tail = std::fs::read_to_string(&errlog).unwrap_or_default();
         if cid == 0 || cid == u64::MAX {
-            let tail = std::fs::read_to_string(&errlog).unwrap_or_default();
-            println!("worker failed outside a case (from={from}): {status:?}\n{}", &tail[tail.len().saturating_sub(2000)..]);
+            println!("worker failed outside a case (from={from}): status {status:#x}\n{}", &tail[tail.len().saturating_sub(2000)..]);
             std::process::exit(3);
         }
-        let tail = std::fs::read_to_string(&errlog).unwrap_or_default();
-        let tail: String = tail.lines().filter(|l| !l.trim().is_empty()).last().unwrap_or("").chars().take(160).collect();
+        let first: String = tail.lines().find(|l| !l.trim().is_empty()).unwrap_or("").chars().take(160).collect();
         let (outcome, msg) = if hung {
             ("hang", format!("no progress after {hang_cpu_s} CPU-seconds"))
         } else {
-            use std::os::unix::process::ExitStatusExt;
-            let sig = status.and_then(|s| s.signal());
+            let sig = status & 0x7f;
             let what = match sig {
-                Some(11) => "SIGSEGV (stack overflow or invalid access)".to_string(),
-                Some(6) => "SIGABRT".to_string(),
-                Some(s) => format!("signal {s}"),
-                None => format!("exit status {:?}", status.and_then(|s| s.code())),
+                0 => format!("exit status {}", (status >> 8) & 0xff),
+                11 => "SIGSEGV".to_string(),
+                6 => "SIGABRT".to_string(),
+                s => format!("signal {s}"),
             };
-            ("abort", if tail.is_empty() { what } else { format!("{what}: {tail}") })
+            ("abort", if first.is_empty() { what } else { format!("{what}: {first}") })
         };
-        {
-            let mut f = std::fs::OpenOptions::new().append(true).open(&skip).unwrap();
-            writeln!(f, "{cid} {ep} {outcome} {}", msg.replace('\n', " ")).unwrap();
+        skips.insert((cid, ep as usize), (outcome.to_string(), msg.clone()));
+        n_incidents += 1;
+        if incidents.len() < 50 {
+            incidents.push(json!({"case": cid, "ep": ep, "outcome": outcome, "msg": msg}));
         }
-        incidents.push(json!({"case": cid, "ep": ep, "outcome": outcome, "msg": msg}));
         from = cid;
-        restarts += 1;
-        if restarts > 400 {
-            println!("too many worker restarts ({restarts}); last incident {:?}", incidents.last());
+        if n_incidents > max_incidents {
+            println!("too many worker incidents ({n_incidents}); last {:?}", incidents.last());
             std::process::exit(3);
         }
     }
@@ -1559,12 +1558,12 @@ fn parent(a: &std::collections::HashMap<String, String>) {
     let mut counts: std::collections::BTreeMap<String, u64> = Default::default();
     let mut nontrivial = 0u64;
     let mut transport_bad = 0u64;
+    let mut transport_checked = 0u64;
     let mut next = 1u64;
     let mut bytes_total = 0u64;
-    for rec in read_ndjson(&part) {
+    for rec in read_ndjson(&sh.part) {
         let id = rec["id"].as_u64().unwrap();
         if id != next {
-            // a case re-executed after a restart appears once only (the worker appends after completion)
             rep.mismatch(json!({"what": "case ids not consecutive in worker output", "expected": next, "got": id}));
         }
         next = id + 1;
@@ -1579,6 +1578,9 @@ fn parent(a: &std::collections::HashMap<String, String>) {
         }
         if has_ok && has_err {
             nontrivial += 1;
+        }
+        if sh.cases[(id - 1) as usize].contains("\"bytes\":") {
+            transport_checked += 1;
         }
         if !rec["transport_ok"].as_bool().unwrap_or(true) {
             transport_bad += 1;
@@ -1603,10 +1605,12 @@ fn parent(a: &std::collections::HashMap<String, String>) {
     rep.extra.insert("executions".into(), json!(execs));
     rep.extra.insert("outcomes".into(), json!(counts));
     rep.extra.insert("mixed_outcome_cases".into(), json!(nontrivial));
-    rep.extra.insert("worker_restarts".into(), json!(restarts));
+    rep.extra.insert("transport_checked".into(), json!(transport_checked));
+    rep.extra.insert("worker_incidents".into(), json!(n_incidents));
     rep.extra.insert("incidents".into(), json!(incidents));
     rep.extra.insert("worker_cpu_s".into(), json!(cpu_total as f64 / 100.0));
     rep.extra.insert("input_bytes".into(), json!(bytes_total));
+    rep.extra.insert("memory_limit_mib".into(), json!(mem >> 20));
     rep.print();
 }
 
@@ -1626,15 +1630,6 @@ fn show(a: &std::collections::HashMap<String, String>) {
 
 fn main() {
     let a = args_map();
-    if a.contains_key("worker") {
-        // the main thread of a process has an 8 MiB stack by default: give the worker the same
-        let a2 = a.clone();
-        let h = std::thread::Builder::new().stack_size(8 << 20).spawn(move || worker(&a2)).expect("thread");
-        if h.join().is_err() {
-            std::process::exit(4);
-        }
-        return;
-    }
     match a.get("_0").map(|s| s.as_str()) {
         Some("seeds") => gen_seeds(&a["out"]),
         Some("run") => parent(&a),
